@@ -67,7 +67,7 @@ ExtSigs0 == {[params |-> ps, results |-> rs, use |-> "extend"] :
 DocLayouts == {"line", "directive", "block", "tab", "prose", "detached", "trailing"}
 NotSetting == {"prose", "detached", "trailing"}
 HasCtxDecl(s) == \E i \in DOMAIN s.params : s.params[i] = "ctxdecl"
-ExtSigs == {[params |-> s.params, results |-> s.results, use |-> "extend", layout |-> "line", place |-> pl] : s \in ExtSigs0, pl \in {"local", "x1", "x2"}}
+ExtSigs == {[params |-> s.params, results |-> s.results, use |-> "extend", layout |-> "line", place |-> pl] : s \in ExtSigs0, pl \in {"local", "x1", "x2", "regex"}}      \* regex: selected by a pattern (goverter:extend F12x?) instead of its name
            \cup {[params |-> s.params, results |-> s.results, use |-> "extend", layout |-> l, place |-> "local"] : s \in {x \in ExtSigs0 : HasCtxDecl(x)}, l \in DocLayouts}
 \* what the parameter list means once the doc comment has been read: without the setting line the parameter is a plain one
 AsPlain(s) == [s EXCEPT !.params = [i \in DOMAIN s.params |-> IF s.params[i] = "ctxdecl" THEN "src2" ELSE s.params[i]]]
